@@ -252,6 +252,18 @@ def waiter_shared_input():
     }}
 
 
+def resumable_shared_input():
+    """x broadcasts one A at its very end; p (accepts A) waits for a Resp with a requirement; q (accepts A too, no gate: it is
+    never in flight at a quiescence point) counts its executions in the store: pausing while p waits must not run q again."""
+    return {"timeout": None, "steps": {
+        "x": {"accepts": ["Start"], "nw": 1, "body": [G, {"op": "send", "ty": "A", "n": 1}, {"op": "none"}]},
+        "p": {"accepts": ["A"], "nw": 1, "returns": ["Stop"],
+              "body": [{"op": "wait", "ty": "Resp", "wid": "wp", "timeout": None, "reqs": {"k": 1}, "wev": False},
+                       {"op": "store_set", "key": "uid"}, G, {"op": "stop", "result": "done"}]},
+        "q": {"accepts": ["A"], "nw": 1, "body": [{"op": "store_count"}, {"op": "none"}]},
+    }}
+
+
 def waiter_shared_id():
     """two invocations of p (nw=2) wait under ONE waiter id: the waiter_event is still published once for that id."""
     return {"timeout": None, "steps": {
@@ -379,8 +391,11 @@ def family(name, quick=True):
         out.append(("resumable(2,2,3,1)", resumable(2, 2, 3, 1), []))
         out.append(("resumable(1,2,2,99)", resumable(1, 2, 2, 99), []))
         out.append(("resumable(2,3,3,2,delay=2)", resumable(2, 3, 3, 2, 2), []))
+        # the result is the set that collect_events handed out (sorted): a buffer that loses or repeats an event shows
+        out.append(("resumable_set(1,3)", resumable(1, 3, 2, 0, 0, result="collected"), []))
         out.append(("resumable_wait", resumable_wait(), [("Resp1", None), ("Resp", None)]))
         out.append(("resumable_handlers", resumable_handlers(), []))
+        out.append(("resumable_shared_input", resumable_shared_input(), [("Resp1", None)]))
     elif name == "waits":
         out.append(("chain(5,1)", pipeline(retry_max=4, wait=["chain", [5, 1]], fail_until=99), []))
         out.append(("chain(1,4,2)", pipeline(retry_max=5, wait=["chain", [1, 4, 2]], fail_until=99), []))
@@ -397,7 +412,7 @@ def family(name, quick=True):
     return out
 
 
-def resumable(nw=2, n=2, retry_max=3, fail_until=1, delay=0):
+def resumable(nw=2, n=2, retry_max=3, fail_until=1, delay=0, result="done"):
     """Order-insensitive deterministic workflow for C12/C13: every step records its input in the state store
     (idempotent: key derived from the input), the final result is a constant."""
     return {"timeout": None, "steps": {
@@ -408,7 +423,7 @@ def resumable(nw=2, n=2, retry_max=3, fail_until=1, delay=0):
         "b": {"accepts": ["A"], "nw": nw, "retry": {"max": retry_max, "wait": ["fixed", delay]},
               "body": [G, {"op": "fail", "until": fail_until}, {"op": "store_set", "key": "uid"}, {"op": "ret", "ty": "B"}]},
         "c": {"accepts": ["B"], "nw": 1,
-              "body": [G, {"op": "collect", "expected": ["B"] * n}, {"op": "stop", "result": "done"}]},
+              "body": [G, {"op": "collect", "expected": ["B"] * n}, {"op": "stop", "result": result}]},
     }}
 
 
